@@ -68,7 +68,7 @@ GRAPH_TRUSTED = [
     '`==` on Label/Persistence is structural (Verus `Structural`): discharged by Kani harnesses on the real types for C01-C03, assumed elsewhere',
     'Hex is opaque in this unit: Hex::empty() has the empty byte string, Hex::clone() keeps the byte string (proved for empty() in U_hex)',
     'assume_specification <[T]>::to_vec',
-    'std Iterator::find on emap::Iter (inherent shim method): first remaining element accepted by the predicate',
+    'std Iterator::find and filter(..).map(..).collect::<Vec<_>>() on emap::Iter (inherent shim methods with contracts over the closures\' own contracts)',
     'vstd specification of Option::map / Option::unwrap',
 ]
 
@@ -124,9 +124,8 @@ def graph_prop(pid, technique, level_text, explanation, not_covered, extra=None)
         technique=technique, level_text=level_text, explanation=explanation, not_covered=not_covered,
         trusted_base=GRAPH_TRUSTED,
         level_note='Trusted: Verus/Z3; the container contracts in shim/ (emap, micromap, microstack: specified, not '
-                   'verified, Kani-audited within small bounds); derived PartialEq is structural; Hex opaque (view + '
-                   'empty/clone facts). Not covered: merge/slice/save+load/script callers, kids() (one-line wrapper), '
-                   'keys()/len()/next_id() bodies (closure-pattern iterator chains; see C05).',
+                   'verified, Kani-audited within small bounds); Hex opaque (view + empty/clone facts). Not covered: '
+                   'merge/slice/save+load/script callers, kids() (one-line wrapper returning impl Iterator).',
         design_ref='DESIGN.md §3-§4',
         assumptions=['calls are within the limits and documented preconditions of the property quantifier (ids below the '
                      'capacity, bind endpoints present and distinct, at most N labels, at most 16 members, a free group '
